@@ -1,6 +1,7 @@
 /- Helper lemmas for the QName converter: association lists, `text.split`, NCNames. -/
 import XsdataModel.Conv.QName
 import XsdataModel.Proofs.Digits
+import XsdataModel.Spec.Xsd
 
 namespace Xs.Conv
 open Py
@@ -295,6 +296,85 @@ theorem isNcName_of_ascii (e : CEnv) (s : Str) (h : isAsciiNcName s = true) : is
       · right; subst h1; simpa using p46
       · right; subst h1; simpa using p45
       · right; subst h1; simpa using p95
+
+/-! ### `is_uri` on RFC 2396 URI references -/
+
+open Xs.Spec in
+/-- every RFC 2396 URI character is in both character sets of the regex (tables
+regenerated from the compiled `URI_REGEX`) -/
+theorem rfc_table :
+    rfcUriChars.all (fun c => Tables.uriBodyChars.contains c.toNat && Tables.uriFragmentChars.contains c.toNat
+      && c != '#' && c != Char.ofNat 10) = true := by decide +kernel
+
+open Xs.Spec in
+theorem rfcUriChar_tables (c : Char) (h : rfcUriChar c = true) :
+    Tables.uriBodyChars.contains c.toNat = true ∧ Tables.uriFragmentChars.contains c.toNat = true ∧
+    c ≠ '#' ∧ c ≠ Char.ofNat 10 := by
+  have hm : c ∈ rfcUriChars := by simpa [rfcUriChar] using h
+  have := List.all_eq_true.mp rfc_table c hm
+  simp only [Bool.and_eq_true, bne_iff_ne, ne_eq] at this
+  exact ⟨this.1.1.1, this.1.1.2, this.1.2, this.2⟩
+
+theorem partitionChar_spec (c : Char) (s : Str) :
+    s = (partitionChar c s).1 ++ (if (partitionChar c s).2.1 then c :: (partitionChar c s).2.2 else []) ∧
+    ((partitionChar c s).2.1 = false → (partitionChar c s).2.2 = []) := by
+  induction s with
+  | nil => simp [partitionChar]
+  | cons x xs ih =>
+    unfold partitionChar
+    by_cases hx : x = c
+    · subst hx; simp
+    · simp only [hx, if_false]
+      obtain ⟨h1, h2⟩ := ih
+      refine ⟨?_, h2⟩
+      simp only [List.cons_append]
+      rw [← h1]
+
+theorem dropFinalNewline_id (s : Str) (h : Char.ofNat 10 ∉ s) : dropFinalNewline s = s := by
+  unfold dropFinalNewline
+  split
+  · rename_i r heq
+    exfalso
+    apply h
+    have : Char.ofNat 10 ∈ s.reverse := by rw [heq]; exact List.mem_cons_self
+    simpa using this
+  · rfl
+
+open Xs.Spec in
+/-- `is_uri` accepts every RFC 2396 URI reference that does not end in `#` -/
+theorem isUri_of_rfc (u : Str) (h : isRfcUriRef u = true) (hl : u.getLast? ≠ some '#') :
+    isUri (some u) = true := by
+  simp only [isRfcUriRef, Bool.and_eq_true, Bool.not_eq_true', List.all_eq_true] at h
+  obtain ⟨⟨hne, hbody⟩, hfrag⟩ := h
+  obtain ⟨hsplit, hnf⟩ := partitionChar_spec '#' u
+  have hnl : Char.ofNat 10 ∉ u := by
+    intro hm
+    rw [hsplit] at hm
+    rcases List.mem_append.mp hm with h1 | h1
+    · exact (rfcUriChar_tables _ (hbody _ h1)).2.2.2 rfl
+    · split at h1
+      · rcases List.mem_cons.mp h1 with h2 | h2
+        · revert h2; decide
+        · exact (rfcUriChar_tables _ (hfrag _ h2)).2.2.2 rfl
+      · cases h1
+  simp only [isUri, hne, Bool.not_false, Bool.true_and, uriMatch, dropFinalNewline_id u hnl,
+    Bool.and_eq_true, List.all_eq_true, decide_eq_true_eq]
+  refine ⟨?_, ?_⟩
+  · intro c hc
+    have := rfcUriChar_tables c (hbody c hc)
+    exact ⟨this.1, this.2.2.1⟩
+  · cases hf : (partitionChar '#' u).2.1 with
+    | false => simp
+    | true =>
+      simp only [if_true, Bool.and_eq_true, Bool.not_eq_true', List.all_eq_true]
+      refine ⟨?_, fun c hc => (rfcUriChar_tables c (hfrag c hc)).2.1⟩
+      cases hfr : (partitionChar '#' u).2.2 with
+      | cons a r => rfl
+      | nil =>
+        exfalso
+        apply hl
+        rw [hsplit, hf, hfr]
+        simp
 
 /-! ### generated prefixes -/
 
